@@ -319,7 +319,7 @@ def repo_visit_results(tier, seed):
 
 def repo_cursor_results(tier, seed):
     # (every instance x landmark x member x wrapper is a transition: two messages per schema in the quick tier)
-    return run_catalogue("repocursor", repo_schemas(tier, seed, 8 if tier == "thorough" else 2), tier, seed, machine="cursor",
+    return run_catalogue("repocursor", repo_schemas(tier, seed, 8 if tier == "thorough" else 1, naming=(tier == "thorough")), tier, seed, machine="cursor",
                          configs_for=(lambda i, S, base: base) if tier == "thorough" else _rot(2),
                          k_for=lambda S: 2 if tier == "thorough" else 1)
 
